@@ -88,6 +88,8 @@ MUTANTS = [
         main_intensity = self.__formulate_top_expression()''',
      '''    def formulate(self) -> HelicityModel:
         main_intensity = self.__formulate_top_expression()'''),
+    ("c06_revert_name_tiebreak", "C06", HEL,
+     "key=lambda s: (natural_sorting(s.name), s.name))", "key=lambda s: natural_sorting(s.name))"),
     # ---- C15 ------------------------------------------------------------------------
     ("c15_revert_shallow_newargs", "C15", DEC,
      "    return tuple(getattr(instance, field.name) for field in _get_fields(instance))\n",
